@@ -98,6 +98,9 @@ def check(A):
     C02.check(A, only_decode=True, prefix='C01')
     for cf in clirules.CFLAVOURS:
         clirules.write_loop_rules(A, cf, 'C01')
+    # the poll response is built from the text-channel form of every packet
+    from . import srvrules
+    srvrules.constructor_rules(A, 'C01')
 
 
 
